@@ -17,7 +17,49 @@ impl<K: fmt::Debug, V: fmt::Debug> fmt::Debug for HashMap<K, V> {
     fn fmt(&self, f: &mut fmt::Formatter<'_>) -> fmt::Result { f.write_str("HashMap") }
 }
 
-pub struct Keys<'a, K, V>(std::vec::IntoIter<(&'a K, &'a V)>);
+#[cfg(not(ggrs_verif_permute))]
+pub struct Iter<'a, K, V>(std::slice::Iter<'a, (K, V)>);
+#[cfg(not(ggrs_verif_permute))]
+impl<'a, K, V> Iterator for Iter<'a, K, V> {
+    type Item = (&'a K, &'a V);
+    fn next(&mut self) -> Option<(&'a K, &'a V)> { match self.0.next() { Some((k, v)) => Some((k, v)), None => None } }
+}
+#[cfg(not(ggrs_verif_permute))]
+pub struct Values<'a, K, V>(std::slice::Iter<'a, (K, V)>);
+#[cfg(not(ggrs_verif_permute))]
+impl<'a, K, V> Iterator for Values<'a, K, V> {
+    type Item = &'a V;
+    fn next(&mut self) -> Option<&'a V> { match self.0.next() { Some((_, v)) => Some(v), None => None } }
+}
+#[cfg(not(ggrs_verif_permute))]
+pub struct ValuesMut<'a, K, V>(std::slice::IterMut<'a, (K, V)>);
+#[cfg(not(ggrs_verif_permute))]
+impl<'a, K, V> Iterator for ValuesMut<'a, K, V> {
+    type Item = &'a mut V;
+    fn next(&mut self) -> Option<&'a mut V> { match self.0.next() { Some((_, v)) => Some(v), None => None } }
+}
+#[cfg(ggrs_verif_permute)]
+pub struct Iter<'a, K, V>(std::vec::IntoIter<(&'a K, &'a V)>);
+#[cfg(ggrs_verif_permute)]
+impl<'a, K, V> Iterator for Iter<'a, K, V> {
+    type Item = (&'a K, &'a V);
+    fn next(&mut self) -> Option<(&'a K, &'a V)> { self.0.next() }
+}
+#[cfg(ggrs_verif_permute)]
+pub struct Values<'a, K, V>(std::vec::IntoIter<&'a V>);
+#[cfg(ggrs_verif_permute)]
+impl<'a, K, V> Iterator for Values<'a, K, V> {
+    type Item = &'a V;
+    fn next(&mut self) -> Option<&'a V> { self.0.next() }
+}
+#[cfg(ggrs_verif_permute)]
+pub struct ValuesMut<'a, K, V>(std::vec::IntoIter<&'a mut V>);
+#[cfg(ggrs_verif_permute)]
+impl<'a, K, V> Iterator for ValuesMut<'a, K, V> {
+    type Item = &'a mut V;
+    fn next(&mut self) -> Option<&'a mut V> { self.0.next() }
+}
+pub struct Keys<'a, K, V>(Iter<'a, K, V>);
 impl<'a, K, V> Iterator for Keys<'a, K, V> {
     type Item = &'a K;
     fn next(&mut self) -> Option<&'a K> { self.0.next().map(|(k, _)| k) }
@@ -72,24 +114,37 @@ impl<K: PartialEq, V> HashMap<K, V> {
     pub fn retain<F: FnMut(&K, &mut V) -> bool>(&mut self, mut f: F) {
         self.items.retain_mut(|(k, v)| f(k, v));
     }
-    pub fn iter(&self) -> std::vec::IntoIter<(&K, &V)> {
+    #[cfg(not(ggrs_verif_permute))]
+    pub fn iter(&self) -> Iter<'_, K, V> { Iter(self.items.iter()) }
+    #[cfg(not(ggrs_verif_permute))]
+    pub fn keys(&self) -> Keys<'_, K, V> { Keys(self.iter()) }
+    #[cfg(not(ggrs_verif_permute))]
+    pub fn values(&self) -> Values<'_, K, V> { Values(self.items.iter()) }
+    #[cfg(not(ggrs_verif_permute))]
+    pub fn values_mut(&mut self) -> ValuesMut<'_, K, V> { ValuesMut(self.items.iter_mut()) }
+
+    #[cfg(ggrs_verif_permute)]
+    pub fn iter(&self) -> Iter<'_, K, V> {
         let mut v: Vec<(&K, &V)> = Vec::with_capacity(self.items.len());
         for (k, val) in self.items.iter() { v.push((k, val)); }
         permute(&mut v);
-        v.into_iter()
+        Iter(v.into_iter())
     }
+    #[cfg(ggrs_verif_permute)]
     pub fn keys(&self) -> Keys<'_, K, V> { Keys(self.iter()) }
-    pub fn values(&self) -> std::vec::IntoIter<&V> {
+    #[cfg(ggrs_verif_permute)]
+    pub fn values(&self) -> Values<'_, K, V> {
         let mut v: Vec<&V> = Vec::with_capacity(self.items.len());
         for (_, val) in self.items.iter() { v.push(val); }
         permute(&mut v);
-        v.into_iter()
+        Values(v.into_iter())
     }
-    pub fn values_mut(&mut self) -> std::vec::IntoIter<&mut V> {
+    #[cfg(ggrs_verif_permute)]
+    pub fn values_mut(&mut self) -> ValuesMut<'_, K, V> {
         let mut v: Vec<&mut V> = Vec::with_capacity(self.items.len());
         for (_, val) in self.items.iter_mut() { v.push(val); }
         permute(&mut v);
-        v.into_iter()
+        ValuesMut(v.into_iter())
     }
     pub fn entry(&mut self, k: K) -> Entry<'_, K, V> { Entry { map: self, key: k } }
 }
@@ -108,7 +163,7 @@ impl<'a, K: PartialEq, V> Entry<'a, K, V> {
 
 impl<'a, K: PartialEq, V> IntoIterator for &'a HashMap<K, V> {
     type Item = (&'a K, &'a V);
-    type IntoIter = std::vec::IntoIter<(&'a K, &'a V)>;
+    type IntoIter = Iter<'a, K, V>;
     fn into_iter(self) -> Self::IntoIter { self.iter() }
 }
 impl<K: PartialEq, V> IntoIterator for HashMap<K, V> {
